@@ -2,12 +2,15 @@ SPECIFICATION Spec
 CONSTANTS
   Keys = {"k1", "k2"}
   MaxOps = 4
-  MaxRedirects = 2
+  MaxRedirects = 1
   FixOnce = TRUE
   MaxVals = 2
   HookDepth = 2
   OwnBytes = TRUE
   Nodes = {}
   ConnConfig = "live"
+  BareUpdate = "refused"
+  Sizes = {0}
+  ReadLimit = 0
 INVARIANTS StoredForm ReadBack OnlyWhenEnabled OffMeansOff
 CHECK_DEADLOCK FALSE
